@@ -22,5 +22,7 @@ def run(ctx, model_ok, deep=False):
          "policy rejections, signature failures, callback-selected keys: contract checked on every verify", False),
         ("builder-errors", S.builder_reuse_suite, S.falsify_builder_reuse,
          "generate failing in the callback, on a weak key, on an inadmissible callback choice, from every prior error state: NULL <=> flag, flag => message, token => clean", False),
+        ("builder-routes", S.builder_routes_suite, S.falsify_builder_routes,
+         "unusable keys/algorithms on the builder (inadmissible pairs, JWT_ALG_INVAL, weak or cross-family keys, public keys) through setkey and callback routes: NULL <=> flag with message", True),
         ("setget-codes", S.setget_suite, S.falsify_setget, "return code of every header/claim set/get/del equals the code stored in the value (executor prints both) and the typed-map answer", False),
     ])
